@@ -35,7 +35,38 @@ def generate(ctx):
         if n_nodes:
             root = ctx.rng.randrange(n_nodes)
             case["ops"] += [["coll", root], ["coll", root], ["reset", root], ["coll", root]]
+    cases = twin_subtrees() + cases
+    ctx.exhaustive_parts.append("twin subtrees: two distinct, structurally equal, non-empty subtrees collected in the same pass / one after the other / after a reset, both kinds")
     return cases
+
+
+def twin_subtrees():
+    """Systematic family, part of every run: two distinct node objects that are structurally equal
+    (same data, equal children) under one root; `collect` returns a set, which merges them by value,
+    but each must be walked and marked."""
+    nm = lambda b: b.hex()
+    out = []
+    for kind in ("A", "B"):
+        B = kind == "B"
+        mk = lambda d, leaf: ["new", (2 * d + (1 if leaf else 0)) if B else d, B and not leaf, leaf]
+        for depth in (1, 2):
+            base = [mk(7, False), mk(1, False), mk(1, False), mk(1, True), mk(1, True)]          # 0 root, 1 X, 2 Y, 3 leaf, 4 leaf
+            base += [["set", 1, 3, nm(b"k")], ["set", 2, 4, nm(b"k")]]
+            if depth == 2:
+                base += [mk(2, False), mk(2, False), mk(3, True), mk(3, True),                  # 5,6 inner twins, 7,8 leaves
+                         ["set", 5, 7, nm(b"f")], ["set", 6, 8, nm(b"f")], ["set", 1, 5, nm(b"sub")], ["set", 2, 6, nm(b"sub")]]
+            both = [["set", 0, 1, nm(b"a")], ["set", 0, 2, nm(b"b")]]
+            scripts = [
+                both + [["coll", 0], ["coll", 0], ["reset", 0], ["coll", 0], ["coll", 0]],
+                [["set", 0, 1, nm(b"a")], ["coll", 0], ["set", 0, 2, nm(b"b")], ["coll", 0], ["coll", 0]],
+                both + [["hash", 0], ["coll", 0], ["coll", 0], ["reset", 1], ["coll", 0], ["coll", 0]],
+                both + [["coll", 1], ["coll", 0], ["coll", 0], ["coll", 2], ["reset", 0], ["coll", 2], ["coll", 0], ["coll", 0]],
+            ]
+            for sc in scripts:
+                ops = base + sc
+                n = len([o for o in ops if o[0] == "new"])
+                out.append({"kind": kind, "ops": ops + [["hash", i] for i in range(n)]})
+    return out
 
 
 def value_of(w, node):
